@@ -156,11 +156,15 @@ CLAIMS['C17'] = dict(category='other', technique='bounded enumeration of the fun
     text=_BOUNDED_ONLY % ('function-name resolution runs on SourceView (see C15), the if_chain! macro, char iterators walked backwards and the Unicode identifier tables of a dependency.', 'function_name'),
     note='Bound: 4 generated programs, tokens at every UTF-16 column, every start token x 12 candidate names, plus the 128-token window; identifier classification restricted to ASCII, three non-ASCII letters and the joiners.',
     design_ref='DESIGN.md 5 C17')
-CLAIMS['C18'] = dict(category='other', technique='bounded enumeration of the function contract (stand-in for contract-based deductive verification)',
-    text=_BOUNDED_ONLY % ('reference discovery iterates BufRead::lines (io::Result<String> items) and the data-URL round trip goes through two base64 crates and serde_json; the only '
-         'crate-local logic is a 21-byte prefix test and a boolean key predicate.', 'discover'),
-    note='Bound: texts of <= 3 lines from 8 line kinds x 2 newline styles x final newline or not; maps with 0..2 tokens through to_data_url / decode_data_url / embedded discovery; detection on serialised maps.',
+CLAIMS['C18'] = dict(
+    text='PARTIAL: unbounded proof of three of the listed mechanisms (src/detector.rs): SourceMapRef::get_url returns the URL of either comment form; '
+         'get_embedded_sourcemap decodes a reference whose URL starts with "data:" -- for the regular and the legacy form alike -- and answers "no embedded map" for '
+         'anything else; the detection predicate is_sourcemap_common accepts every document that has the keys a serialised regular / Hermes map (version, sources, '
+         'mappings) or index map (sections) always has, and nothing without mappings or sections. The line scan (BufReader::lines, byte slicing, trim), the base64 '
+         'writer / reader pair of the data URL and the serde layer of the predicates are std / dependency glue outside the verifier\'s subset: bounded stand-in discover.',
+    note=_TB + 'decode_data_url is represented by a named result (no property assumed); str::starts_with by its shim contract.',
     design_ref='DESIGN.md 5 C18')
+
 CLAIMS['C19'] = dict(
     text='PARTIAL: unbounded proof of the helper under make_relative_path, find_common_prefix_of_sorted_vec (utils.rs:32-57): for two component lists it returns exactly '
          'their longest common leading run (nothing when they share no first component), always a non-empty prefix of the first list, with no out-of-range index; this '
@@ -191,6 +195,7 @@ NOT_APPLICABLE['C16'] = ('concurrency (interleavings of threads sharing a Source
 
 # parts of each property that no discharged obligation covers (reported in every evidence file, never counted)
 NOT_COVERED = {
+    'C18': ['locate_sourcemap_reference (BufReader::lines, from_utf8 of a byte slice, trim): bounded stand-in discover', 'to_data_url / decode_data_url round trip (base64 of two crates): bounded', 'is_sourcemap / is_sourcemap_slice wiring around serde_json: bounded (header, discover)'],
     'C19': ['make_relative_path itself (iterator-adapter chain: split / filter / collect / sort_by_key / repeat / take / join): bounded stand-in relpath', 'find_common_prefix (the rewrite "~" option): not part of C19'],
     'C20': ['scroll::Pread internals and the derive(Pread) expansion (assumed contracts; exercised by the bounded stand-in ram_bundle)', 'UnbundleRamBundle (file-system based variant)', 'split_ram_bundle / SplitRamBundleModuleIter (composition with flatten and SourceMapBuilder)', 'that Iterator::next of RamBundleModuleIter is the inherent body verified here (R-trait-inherent: same text, emitted outside the trait impl)'],
     'C10': ['the sweep of adjust_mappings (skip / overlap / clip / advance, displacement arithmetic, final sort): bounded stand-in only', 'positions >= 2^31 (as i32)'],
